@@ -213,18 +213,19 @@ theorem keeps_withScope (scope : Str) {g : Gen} (hg : Keeps I g) :
 
 theorem keeps_kwRef {rec : Rec} (hrec : ∀ i s, Keeps I (rec i s)) (ref inst : Json) :
     Keeps I (kwRef env rec ref inst) := by
-  refine ⟨fun b st hi => ?_⟩
-  unfold kwRef
+  refine kwRef_cases (P := Keeps I) (fun hg hh => ⟨fun b st hi => ?_⟩) (fun r => ⟨fun b st hi => ?_⟩)
+    ⟨fun _ _ hi => hi⟩ ⟨fun _ _ hi => hi⟩ ref
+  · unfold ifTopEmpty; split
+    · exact hg.keeps b st hi
+    · exact hh.keeps b st hi
+  rw [kwRef_str]
+  have h := H.resolve r st hi
   split
-  · rename_i r
-    have h := H.resolve r st hi
-    split
-    · rename_i url target st1 heq
-      rw [heq] at h
-      exact (keeps_withScope H url (hrec inst target)).keeps b st1 h
-    · rename_i heq; rw [heq] at h; exact h
-    · rename_i heq; rw [heq] at h; exact h
-  · exact hi
+  · rename_i url target st1 heq
+    rw [heq] at h
+    exact (keeps_withScope H url (hrec inst target)).keeps b st1 h
+  · rename_i heq; rw [heq] at h; exact h
+  · rename_i heq; rw [heq] at h; exact h
 
 theorem keepsClosed : Closed env (Keeps I) where
   emit := keeps_emit
